@@ -249,6 +249,10 @@ class ModuleFinder:
         real_module_name = module_name
         real_module_name = real_module_name.removesuffix("-stubs")
         namespace_dirs = []
+        # A pkgutil-style namespace package is a regular package for the import system:
+        # once one is found, it wins over modules and packages found later, and the directories
+        # of these packages are added to its portions (as `pkgutil.extend_path` does).
+        pkg_style = False
         for path in self.search_paths:
             path_contents = self._contents(path)
             if path_contents:
@@ -256,16 +260,25 @@ class ModuleFinder:
                     abs_path = path / choice
                     if abs_path in path_contents:
                         if abs_path.suffix:
+                            if pkg_style:
+                                continue
                             stubs = abs_path.with_suffix(".pyi")
                             return Package(real_module_name, abs_path, stubs if stubs.exists() else None)
                         init_module = abs_path / "__init__.py"
-                        if init_module.exists() and not _is_pkg_style_namespace(init_module):
-                            stubs = init_module.with_suffix(".pyi")
-                            return Package(real_module_name, init_module, stubs if stubs.exists() else None)
-                        init_module = abs_path / "__init__.pyi"
                         if init_module.exists():
+                            if _is_pkg_style_namespace(init_module):
+                                pkg_style = True
+                            elif not pkg_style:
+                                stubs = init_module.with_suffix(".pyi")
+                                return Package(real_module_name, init_module, stubs if stubs.exists() else None)
+                        init_module = abs_path / "__init__.pyi"
+                        if init_module.exists() and not pkg_style:
                             # Stubs package.
                             return Package(real_module_name, init_module, None)
+                        if pkg_style and not init_module.with_suffix(".py").exists() and path / filepaths[1] in path_contents:
+                            # For the import system a module wins over a directory without `__init__` module:
+                            # such a directory is not a portion of the pkgutil-style package found earlier.
+                            continue
                         namespace_dirs.append(abs_path)
 
         if namespace_dirs:
